@@ -168,6 +168,14 @@ def main(tier, only=None):
                 steps = [('SETUP debugfs jo/jw/jc: a committed transaction waits in the journal', [DBG, '-w', '-f', js, '{img}']),
                          ('NOFSCK tune2fs %s on a filesystem that needs recovery' % tl, [T] + targs + ['{img}'])]
                 jobs.append(('%s/bs1024/g%d/needs_recovery/tune2fs %s' % (name, groups, tl), ['-b', '1024', '-g', '256', '-N', str(16 * groups)] + args, groups * 256 + 1, steps))
+    # a repairing e2fsck must refresh backups that differ from the primary, whatever state the primary was in: the primary alone gets a feature change (debugfs
+    # writes the primary only) and, in the second variant, the "has errors" state; then e2fsck -fy
+    for es, st in (('clean', []), ('errors', ['ssv state 3'])):
+        sp = os.path.join(scratch(), 'c20.prim.%s' % es); open(sp, 'w').write('\n'.join(['feature ext_attr'] + st) + '\n')      # (large_file, dir_nlink, extents are set on the fly by the kernel and deliberately not compared by e2fsck)
+        for name, args in (('sparse', ['-t', 'ext4', '-O', '^has_journal,^resize_inode,^ext_attr']), ('nosparse', ['-t', 'ext2', '-O', '^sparse_super,^resize_inode,^ext_attr']), ('metabg64', ['-t', 'ext4', '-O', '^has_journal,meta_bg,64bit,metadata_csum,^resize_inode,^ext_attr'])):
+            for groups in (5, 9) if quick else (3, 5, 9, 26):
+                steps = [('SETUP debugfs: feature change in the primary superblock only, state %s' % es, [DBG, '-w', '-f', sp, '{img}']), ('e2fsck -fy after a primary-only feature change (%s)' % es, [E2FSCK, '-fy', '{img}'])]
+                jobs.append(('%s/bs1024/g%d/primary-only-change/%s' % (name, groups, es), ['-b', '1024', '-g', '256', '-N', str(16 * groups)] + args, groups * 256 + 1, steps))
     # default group size: plain e2fsck (no -b) must find a backup by itself
     for name, args, size in (('default_1k', ['-b', '1024', '-t', 'ext4', '-O', '^has_journal', '-N', '64'], 3 * 8192 + 1), ('default_4k', ['-b', '4096', '-t', 'ext4', '-O', '^has_journal,metadata_csum', '-N', '64'], 2 * 32768 + 100),
                              ('default_2k_ext2', ['-b', '2048', '-t', 'ext2', '-N', '64'], 2 * 16384 + 50)):
